@@ -207,6 +207,7 @@ pub fn judge(c: &Case, rec: &mut Rec) -> Verdict {
         sched: Sched::free(),
         log_all: false,
         extra_env: vec![],
+        stdout_to: None,
     };
     let out = Sup::run(spec);
     rec.eval(1);
@@ -369,6 +370,7 @@ fn judge_fb(c: &FbCase, rec: &mut Rec) -> Verdict {
             sched: Sched::free(),
             log_all: false,
             extra_env: vec![],
+            stdout_to: None,
         };
         let o = Sup::run(spec);
         if o.setup_error.is_some() || o.timed_out {
